@@ -207,6 +207,8 @@ def _shrink_candidates(case, shrink_prog=True):
         yield {**c, "sched": [{"mode": "seq"}]}
     b = c.get("backend") or {}
     for k, v in (("page_size", None), ("first_page", None), ("prune_children", False), ("timer_lag", 0.0), ("response", "delta")):
+        if k in (c.get("keep_backend") or ()):
+            continue  # the property's oracle is only defined for this backend behaviour
         if b.get(k) not in (v, None) or (k == "first_page" and b.get(k) is not None):
             yield {**c, "backend": {**b, k: v}}
     plan = c.get("plan") or {}
